@@ -140,7 +140,7 @@ def c14Verdict (fs : List String) (frame : Option Frame) (p c : Snap) : String :
 
 def codeLegal (term : String) : Bool :=
   match term.splitOn "/" with
-  | [e, s] =>
+  | e :: s :: _ =>
     if e = "eof" then s ≠ "-"            -- the server's grpc-status (any uint32), or the client's own code
     else (match e.toNat? with | some c => c ≤ 16 | none => false)
   | _ => false
